@@ -77,7 +77,10 @@ func c22Gen(rng *core.Rng, tier string) *harness.Plan {
 	crashes := 2 + rng.IntN(5)
 	for i := 0; i < crashes; i++ {
 		at := int64((3*time.Second + rng.Dur(0, dur-4*time.Second)) / time.Microsecond)
-		if rng.Chance(0.75) {
+		if rng.Chance(0.4) {
+			// between two Badger commits, whichever Store call issues them (commit granularity)
+			p.Ops = append(p.Ops, harness.Op{At: at, Kind: "crashcommit", N: rng.IntN(9), A: int64(1 + rng.IntN(40))})
+		} else if rng.Chance(0.6) {
 			before := int64(0)
 			if rng.Chance(0.5) {
 				before = 1
